@@ -11,7 +11,8 @@
      decls  - TigaPropertyBuilder::declarations: strategy name -> property (pointer into the list)
      subj   - TigaPropertyBuilder::subjections: the `under S` clauses collected for the query being parsed
      imit   - TigaPropertyBuilder::_imitation: the `imitate S` clause collected for the query being parsed
-     docerr - the document holds an error (PropertyBuilder::property() then creates nothing)
+     frames - ExpressionBuilder::frames beyond the frame of the document: the bound variables of quantifiers whose body is
+              being parsed
 
    A query is a sequence of builder callbacks in the order the grammar makes them:
      ... expression callbacks ... subjection(S)* imitation(S)? property() strategy_declaration(S)?
@@ -27,6 +28,10 @@
                     created a property (FALSE: it binds S to whatever is last in the list - the property of an EARLIER
                     query, or the end of an empty list)
 
+     FramesRestored every query starts with the scope stack the builder was constructed with (FALSE, the code: a syntax
+                    error inside the body of forall/exists/sum leaves the frame of the bound variable on the stack of the
+                    ExpressionBuilder, and later queries resolve names in it)
+
    IndependentOfOtherQueries: the property a query yields is the one it yields on a builder that has seen only the
      strategy declarations that are in force (declarations are the one thing a query legitimately leaves behind).
    NoDangling: nothing reachable from the builder or from a property it has handed out refers to a property that no
@@ -34,7 +39,7 @@
    DeclsAreDeclarations: a declared name refers to the property of a query that declared it.                                                                                                   *)
 EXTENDS Integers, Sequences, FiniteSets, TLC, Json
 
-CONSTANTS MaxQueries, ResetImit, ResetOnFail, ClearDecls, DeclNeedsProperty
+CONSTANTS MaxQueries, ResetImit, ResetOnFail, ClearDecls, DeclNeedsProperty, FramesRestored
 
 Names == {"S", "F"}
 None == "-"
@@ -55,11 +60,16 @@ Forms == [ plain      |-> [decl |-> None, under |-> <<>>,        imit |-> None, 
            typerrS    |-> [decl |-> None, under |-> <<"S">>,     imit |-> None, end |-> "type"],    \* `E<> nosuch under S`: property() returns before it creates anything
            typerrSF   |-> [decl |-> None, under |-> <<"S">>,     imit |-> "F",  end |-> "type"],
            throwS     |-> [decl |-> None, under |-> <<"S">>,     imit |-> None, end |-> "throw"],   \* `A<> deadlock under S`: property() throws
+           quantq     |-> [decl |-> None, under |-> <<>>,        imit |-> None, end |-> "ok"],      \* `E<> forall (q : int[0,1]) arr[q] > 0`
+           usesq      |-> [decl |-> None, under |-> <<>>,        imit |-> None, end |-> "ok"],      \* `E<> q > 0` - no q is declared: a type error unless a frame with q is on the stack
+           synerrQ    |-> [decl |-> None, under |-> <<>>,        imit |-> None, end |-> "syntax"],  \* `E<> forall (q : int[0,1]) arr[q] +` - the parser stops inside the body
            clear      |-> [decl |-> None, under |-> <<>>,        imit |-> None, end |-> "clear"] ]  \* not a query: PropertyBuilder::clear()
 Kinds == DOMAIN Forms
 
+ScopeT == [usesq |-> [uses |-> "q", leaves |-> ""], synerrQ |-> [uses |-> "", leaves |-> "q"]]
+ScopeOf(k) == IF k \in DOMAIN ScopeT THEN ScopeT[k] ELSE [uses |-> "", leaves |-> ""]
 NoRef == [n |-> None, p |-> 0]
-B0 == [next |-> 1, live |-> {}, made |-> {}, decls |-> [n \in Names |-> 0], subj |-> <<>>, imit |-> NoRef]
+B0 == [next |-> 1, live |-> {}, made |-> {}, decls |-> [n \in Names |-> 0], subj |-> <<>>, imit |-> NoRef, frames |-> <<>>]
 
 (* one query on builder b: -> [b, res]; res = what the call hands to the client *)
 RECURSIVE Collect(_, _, _, _)
@@ -73,8 +83,7 @@ Drop(b) == IF ResetOnFail THEN [b EXCEPT !.subj = <<>>, !.imit = NoRef] ELSE b
 Garbage == -1
 Failed(b, f) == IF f.decl = None \/ f.end = "syntax" \/ DeclNeedsProperty THEN Drop(b)
                 ELSE [Drop(b) EXCEPT !.decls[f.decl] = IF b.next - 1 \in b.live THEN b.next - 1 ELSE Garbage]
-Query(k, b) ==
-    LET f == Forms[k] IN
+Core(f, b) ==
     IF f.end = "clear"
     THEN [b |-> [b EXCEPT !.live = {}, !.decls = IF ClearDecls THEN [n \in Names |-> 0] ELSE @,
                           !.subj = IF ClearDecls THEN <<>> ELSE @, !.imit = IF ClearDecls THEN NoRef ELSE @],
@@ -94,6 +103,13 @@ Query(k, b) ==
                                   !.decls = IF f.decl = None THEN @ ELSE [@ EXCEPT ![f.decl] = p]]
              IN [b |-> b3, res |-> [prop |-> p, subj |-> b2.subj, imit |-> b2.imit, errs |-> <<>>, decl |-> f.decl]]
 
+Query(k, b) ==
+    LET bb == IF FramesRestored THEN [b EXCEPT !.frames = <<>>] ELSE b
+        sc == ScopeOf(k)
+        f == IF sc.uses # "" /\ sc.uses \notin {bb.frames[i] : i \in DOMAIN bb.frames} THEN [Forms[k] EXCEPT !.end = "type"] ELSE Forms[k]
+        q == Core(f, bb)
+    IN [b |-> [q.b EXCEPT !.frames = IF sc.leaves = "" THEN @ ELSE Append(@, sc.leaves)], res |-> q.res]
+
 VARIABLES b, hist, last, handed
 vars == <<b, hist, last, handed>>
 Init == b = B0 /\ hist = <<>> /\ last = [kind |-> "", before |-> B0] /\ handed = {}
@@ -106,7 +122,7 @@ Next == /\ Len(hist) < MaxQueries
 Spec == Init /\ [][Next]_vars
 
 (* the reference builder: only the declarations in force, nothing pending *)
-Reference(bb) == [bb EXCEPT !.subj = <<>>, !.imit = NoRef]
+Reference(bb) == [bb EXCEPT !.subj = <<>>, !.imit = NoRef, !.frames = <<>>]
 Observable(r) == [has |-> r.prop # 0, subj |-> [i \in DOMAIN r.subj |-> r.subj[i].n], imit |-> r.imit.n, errs |-> r.errs, decl |-> r.decl]
 IndependentOfOtherQueries ==
     last.kind # "" => Observable(Query(last.kind, last.before).res) = Observable(Query(last.kind, Reference(last.before)).res)
@@ -115,8 +131,12 @@ Refs == {b.decls[n] : n \in Names} \cup {b.subj[i].p : i \in DOMAIN b.subj} \cup
 NoDangling == \A p \in Refs : p = 0 \/ p \in b.live
 DeclsAreDeclarations == \A n \in Names : b.decls[n] # 0 => <<b.decls[n], n>> \in b.made
 
+(* which of the things a query may leave behind makes the difference *)
+Why == IF last.kind = "" THEN {} ELSE
+       {w \in {"subj", "imit", "frames"} :
+           Observable(Query(last.kind, [Reference(last.before) EXCEPT ![w] = last.before[w]]).res) # Observable(Query(last.kind, Reference(last.before)).res)}
 (* for the harness: the declarations in force before the last query (name -> index of the query of the history that made it) *)
-EmitHist == PrintT(<<"EMIT", ToJson([h |-> hist, indep |-> IndependentOfOtherQueries, dangling |-> ~NoDangling,
+EmitHist == PrintT(<<"EMIT", ToJson([h |-> hist, indep |-> IndependentOfOtherQueries, dangling |-> ~NoDangling, why |-> Why,
                                      res |-> IF last.kind = "" THEN [has |-> FALSE] ELSE Observable(Query(last.kind, last.before).res),
                                      uses_dead |-> IF last.kind = "" THEN FALSE
                                                    ELSE LET r == Query(last.kind, last.before).res IN
